@@ -283,6 +283,43 @@ pub fn run(ctx: &Ctx) -> i32 {
         ctx.sample(json!({"family": "completeness", "case": "P=10001101 buf=[0, 7, 4] carrier=2", "meaning": "palette holds indices {0,2,3,7}; a 3x1 tileset tile uses 0,7,4; 4 is missing so the load must fail"}));
     }
 
+    // indexed files whose palette reaches past index 255 (ids that alias modulo 256)
+    if ctx.wants_family("alias-256") {
+        let ranges: [(u32, usize); 6] = [(3, 256), (250, 10), (256, 45), (1, 300), (255, 2), (200, 100)];
+        let mut cases = Vec::new();
+        for (ri, _) in ranges.iter().enumerate() {
+            for px in 0..=255u32 {
+                for carrier in 0..2 {
+                    cases.push((ri, px as u8, carrier));
+                }
+            }
+        }
+        ctx.family("alias-256", cases.len() as u64, "indexed sprites with new-format palettes [first, first+len) in {(3,256),(250,10),(256,45),(1,300),(255,2),(200,100)} x every pixel value 0..255 x carrier {cel, tileset}: load fails iff the pixel value itself is not a palette id (an id p+256 being present must not help)", true);
+        cases.par_iter().for_each(|(ri, px, carrier)| {
+            let (first, len) = ranges[*ri];
+            let case = || format!("palette=[{},{}) pixel={} carrier={}", first, first as usize + len, px, carrier);
+            if !ctx.wants("alias-256", &case) {
+                return;
+            }
+            let fmt = Fmt::Indexed(*px);
+            let mut f = gen::file(2, 1, &fmt, &[10]);
+            f.frames[0].push(new_palette(first, pal_entries(len, first)));
+            if *carrier == 0 {
+                f.frames[0].push(Body::Layer(Layer::image("l")));
+                f.frames[0].push(raw_cel(0, 0, 0, 255, 2, 1, vec![*px, *px]));
+            } else {
+                f.frames[0].push(Body::Tileset(tileset(0, 1, 2, 1, vec![*px, *px], "ts")));
+                f.frames[0].push(Body::Layer(Layer::tilemap("l", 0)));
+            }
+            let present = (*px as u32) >= first && ((*px as u32) < first + len as u32);
+            if present {
+                conform(ctx, "alias-256", &case, &f, &want);
+            } else {
+                expect_err(ctx, "alias-256", &case, &f.encode(), "the pixel's index is not a palette id");
+            }
+        });
+    }
+
     // every single index against U8 \ {i} (must fail) and {i} (must load); no palette at all
     if ctx.wants_family("single-index") {
         ctx.family("single-index", 256 * 4 + 6, "every index i in 0..255 as the only pixel against the palette 0..255 without i (fail) and the palette {i} (load), via legacy and new chunks; indexed sprites with pixels and no palette chunk at all (fail)", true);
